@@ -32,21 +32,22 @@ type constType struct {
 	lit  string // literal bound to the constant
 	same string // an expression evaluating to an equal value (for N = <same>)
 	el   string // for containers: expression equal to the element at [0] / .k, else ""
+	eqv  string // a literal that `==` the bound one but is not identical (an int element written as a float), else the same literal
 }
 
 // large array = above object.MaxSmallArray (8); large map = above object.MaxSmallMap (4)
 var constTypes = []constType{
-	{"int", "42", "42", ""},
-	{"float", "1.5", "1.5", ""},
-	{"bool", "true", "true", ""},
-	{"string", `"s"`, `"s"`, ""},
-	{"nil", "nil", "nil", ""},
-	{"smallarr", "[1,2,3]", "[1,2,3]", "1"},
-	{"bigarr", "[1,2,3,4,5,6,7,8,9,10]", "[1,2,3,4,5,6,7,8,9,10]", "1"},
-	{"smallmap", `{0:1,"k":2}`, `{0:1,"k":2}`, "1"},
-	{"bigmap", `{0:1,1:2,2:3,3:4,"a":5,"k":6}`, `{0:1,1:2,2:3,3:4,"a":5,"k":6}`, "1"},
-	{"func", "func(x){x+1}", "func(x){x+1}", ""},
-	{"nestedbig", "[[1,2,3,4,5,6,7,8,9,10],{0:1,1:2,2:3,3:4,4:5}]", "[[1,2,3,4,5,6,7,8,9,10],{0:1,1:2,2:3,3:4,4:5}]", "[1,2,3,4,5,6,7,8,9,10]"},
+	{"int", "42", "42", "", "42"},
+	{"float", "1.5", "1.5", "", "1.5"},
+	{"bool", "true", "true", "", "true"},
+	{"string", `"s"`, `"s"`, "", `"s"`},
+	{"nil", "nil", "nil", "", "nil"},
+	{"smallarr", "[1,2,3]", "[1,2,3]", "1", "[1.0,2,3]"},
+	{"bigarr", "[1,2,3,4,5,6,7,8,9,10]", "[1,2,3,4,5,6,7,8,9,10]", "1", "[1,2,3,4,5,6,7,8,9,10.0]"},
+	{"smallmap", `{0:1,"k":2}`, `{0:1,"k":2}`, "1", `{0:1,"k":2.0}`},
+	{"bigmap", `{0:1,1:2,2:3,3:4,"a":5,"k":6}`, `{0:1,1:2,2:3,3:4,"a":5,"k":6}`, "1", `{0:1.0,1:2,2:3,3:4,"a":5,"k":6}`},
+	{"func", "func(x){x+1}", "func(x){x+1}", "", "func(x){x+1}"},
+	{"nestedbig", "[[1,2,3,4,5,6,7,8,9,10],{0:1,1:2,2:3,3:4,4:5}]", "[[1,2,3,4,5,6,7,8,9,10],{0:1,1:2,2:3,3:4,4:5}]", "[1,2,3,4,5,6,7,8,9,10]", "[[1,2,3,4,5,6,7,8,9,10],{0:1,1:2,2:3,3:4,4:5.0}]"},
 }
 
 // constKind: one syntactic way of (trying to) write the binding N.  Variants use %N for the
@@ -75,6 +76,7 @@ var constKinds = []constKind{
 	{"lambdaparam", []string{"(%N => %N)(%V)", "func(%N){%N}(%V)", "((%N, b) => %N + b)(%V, %V)", "(%N => {%N = 0})(%V)"}, true, false},
 	{"namedfunc", []string{"func %N(){1}", "func %N(x){x}"}, true, false},
 	{"sameval", []string{"%N = %N", "%N := %N", "%N = %S", "%N[0] = %E", "%N.k = %N.k", "%N = %N + 0"}, true, false},
+	{"cmpequal", []string{"%N = %Q", "%N := %Q", "func(){%N = %Q}()"}, false, false},
 	{"selfop", []string{"%N = %N + 1", "%N = %N + [1]", `%N = %N + {"q":1}`, "%N = -%N", "%N = !%N", "%N = %N[1:]", "%N = rest(%N)"}, false, false},
 	{"alias", []string{"b9 = %N; b9[0] = %V", "b9 = %N; b9.k = %V", "b9 = %N; del(b9.k)", "b9 = %N; del(b9[0])", "b9 = [%N]; c9 = b9[0]; c9[0] = %V", "func g9(x){x[0] = %V}; g9(%N)", "b9 = %N; b9[0][0] = %V", "b9 = %N[0]; b9[0] = %V", "b9 = %N + 0; c9 = %N + 1"}, true, false},
 	{"del", []string{"del(%N)"}, false, true},
@@ -108,7 +110,7 @@ func (a constAttempt) text(name string, t constType, val string) string {
 	if el == "" {
 		el = "0"
 	}
-	r := strings.NewReplacer("%N", name, "%V", val, "%S", t.same, "%E", el)
+	r := strings.NewReplacer("%N", name, "%V", val, "%S", t.same, "%E", el, "%Q", t.eqv)
 	return r.Replace(strings.Replace(constContexts[a.ctx], "%A", v, 1))
 }
 
